@@ -2,7 +2,7 @@ import SqlObjVerif.Model.Events
 import SqlObjVerif.Model.DrvUtil
 /-! Driver for C19.  One case (class configuration + whole history) per line.
 
-Plain class:  `P <lazy 0|1> <ncols> <defaults v,v,..> | <listener>* | <op> ; <op> ; … [| <listener of class B>*]`
+Plain class:  `P <lazy 0|1> <ncols> <defaults v,v,..> [<cacheValues 0|1>] | <listener>* | <op> ; <op> ; … [| <listener of class B>*]`
   (act `x` = the listener creates a row of class B; callbacks `p.<n>` with n ≥ 1000 do so when run; B entries are prefixed `b:`)
   value `i<int>` / `n` / `b`;  kwargs `k=v,k=v` or `-`;  listener `<sig>:<act>` with sig in
   c C u U d D (create created update updated destroy destroyed) and act `o`, `s.<k>.<v>`, `d.<k>`, `p.<p>`;
@@ -148,15 +148,15 @@ def handle (line : String) : String :=
     | _ => some []
   match secs.take 3 with
   | [hd, ls, ops] =>
-    match words hd with
-    | ["P", lz, n, dfl] =>
+    match (match words hd with | [a, b, c, d] => [a, b, c, d, "1"] | w => w) with
+    | ["P", lz, n, dfl, cv] =>
       let dfl := if dfl == "-" then some [] else allSome ((dfl.splitOn ",").map val?)
       let ls := allSome ((words ls).map listener?)
       let ops := if ops.isEmpty then some [] else
         allSome ((ops.splitOn ";").map fun s => op? s.trimAscii.toString)
       match n.toNat?, dfl, ls, ops, lb with
       | some n, some dfl, some ls, some ops, some lb =>
-        let c : Cfg := { ncols := n, lazy := lz == "1", defaults := dfl, listeners := ls }
+        let c : Cfg := { ncols := n, lazy := lz == "1", defaults := dfl, listeners := ls, cacheValues := cv == "1" }
         " ; ".intercalate (runShow c lb init 1 ops)
       | _, _, _, _, _ => "bad-case"
     | ["H"] =>
